@@ -12,8 +12,8 @@ import (
 )
 
 type runner struct {
-	res                    *hx.Result
-	sc, rc, ec, nc, bc, bs hx.CaseFile
+	res                        *hx.Result
+	sc, rc, ec, nc, bc, bs, bm hx.CaseFile
 }
 
 func (x *runner) replay(raw json.RawMessage) error {
@@ -60,6 +60,12 @@ func (x *runner) replay(raw json.RawMessage) error {
 			return err
 		}
 		x.runBindServer(c)
+	case "bindm":
+		var c bindManyCase
+		if err := json.Unmarshal(raw, &c); err != nil {
+			return err
+		}
+		x.runBindMany(c)
 	default:
 		return fmt.Errorf("unknown case kind %q", k.Kind)
 	}
@@ -76,6 +82,7 @@ func main() {
 	x.nc = hx.CaseFile{Name: "sess", Imports: imports, Ok: "ncase_ok", Type: "ncase"}
 	x.bc = hx.CaseFile{Name: "bindc", Imports: imports, Ok: "bccase_ok", Type: "bccase"}
 	x.bs = hx.CaseFile{Name: "binds", Imports: imports, Ok: "bscase_ok", Type: "bscase"}
+	x.bm = hx.CaseFile{Name: "bindm", Imports: imports, Ok: "bmcase_ok", Type: "bmcase"}
 	// hx.NewRand(seed) starts seed draws into one and the same splitmix64 orbit, so
 	// neighbouring seeds re-synchronise; spread the seeds far apart on the orbit.
 	r := hx.NewRand(o.Seed*0x2545F4914F6CDD1D + 0x5bd1e995)
@@ -130,18 +137,21 @@ func main() {
 		for i := 0; i < nBs; i++ {
 			x.runBindServer(x.genBindServer(r))
 		}
+		for i := 0; i < nBs/4; i++ {
+			x.runBindMany(x.genBindMany(r))
+		}
 	}
 	res.Rule = "cases: (send) internal/stream.Send on generated address pairs (resourceparts with quotes, ampersands, angle brackets, non-ASCII), language strings, ids, versions, both framings, " +
 		"output re-read with encoding/xml and with the library's Expect; (read) the model's start-tag reader against encoding/xml on generated tags; (expect) Expect on generated scripts " +
 		"(declarations, junk, names, name spaces, attribute sets, versions, stream errors) in both roles and framings; (sess) NewSession with the real negotiator over 1-4 stream (re)starts " +
-		"with kept/changed/dropped/invalid addresses; (bind) both sides of resource binding through the real negotiator with generated requests, callback verdicts and replies. " +
+		"with kept/changed/dropped/invalid addresses; (bind) both sides of resource binding through the real negotiator with generated requests, callback verdicts and replies; (bind/many) 2-5 receiving sessions served with one BindResource() feature value. " +
 		"distinct = hash of the case's inputs; non-trivial = send: a value needs escaping or replacing; read: encoding/xml accepts the tag; expect: the script has a start element; " +
 		"sess: at least one restart; bind: always"
 	per := 1500
-	for _, cf := range []*hx.CaseFile{&x.sc, &x.rc, &x.ec, &x.nc, &x.bc, &x.bs} {
+	for _, cf := range []*hx.CaseFile{&x.sc, &x.rc, &x.ec, &x.nc, &x.bc, &x.bs, &x.bm} {
 		res.CaseFiles = append(res.CaseFiles, cf.Write(o.Out, per)...)
 	}
-	res.Extra["model_cases"] = x.sc.Len() + x.rc.Len() + x.ec.Len() + x.nc.Len() + x.bc.Len() + x.bs.Len()
+	res.Extra["model_cases"] = x.sc.Len() + x.rc.Len() + x.ec.Len() + x.nc.Len() + x.bc.Len() + x.bs.Len() + x.bm.Len()
 	res.Write(o.Out)
 }
 
@@ -187,4 +197,6 @@ var corpus = []string{
 	`{"kind":"binds","s2s":false,"request_hex":"3c697120747970653d27736574272069643d2731273e3c62696e6420786d6c6e733d2775726e3a696574663a706172616d733a786d6c3a6e733a786d70702d62696e64273e3c7265736f757263653e783c2f7265736f757263653e3c2f62696e643e3c2f69713e","verdict":"default"}`,
 	// (false alarm once) two "to" attributes, the last one empty: the last one counts
 	`{"kind":"sess","recv":true,"s2s":false,"ws":false,"lang_hex":"656e","headers":["3c3f786d6c2076657273696f6e3d22312e302220656e636f64696e673d225554462d38223f3e3c73747265616d3a73747265616d2020746f3d22622220786d6c6e733a73747265616d3d22687474703a2f2f6574686572782e6a61626265722e6f72672f73747265616d7322202076657273696f6e3d22312e30222066726f6d3d2775736572406dc3bc6e6368656e2e6578616d706c6527202069643d2735366338646635392720746f3d27272020786d6c6e733d226a61626265723a736572766572223e"]}`,
+	// two clients of one account bound with one and the same feature value
+	`{"kind":"bindm","s2s":false,"froms":["me@example.net","me@example.net"],"requests_hex":["3c697120747970653d27736574272069643d2762696e6431273e3c62696e6420786d6c6e733d2775726e3a696574663a706172616d733a786d6c3a6e733a786d70702d62696e64272f3e3c2f69713e","3c697120747970653d27736574272069643d2762696e6431273e3c62696e6420786d6c6e733d2775726e3a696574663a706172616d733a786d6c3a6e733a786d70702d62696e64273e3c7265736f757263653e783c2f7265736f757263653e3c2f62696e643e3c2f69713e"]}`,
 }
